@@ -263,7 +263,35 @@ def hNils : Handler := fun r =>
       | s => (s.splitOn " ").head! ++ " " ++ fromMesgG true false true r.args
   | .kf => kfOf true r.args
   | .prop => "n/a"
-def hSM : Handler := modelOnly structToMesg
+/-- `--prop` for `typedsm` ("invalid-valued fields omitted", evaluated on the implementation's own answer): every field of
+the emitted message that belongs to a slot of the struct carries a value that is worth something to the typed layer by the
+protocol's notion of invalid (`specVal`, which looks at kind / value type / base type only — not at the probed sentinel) and
+is in the slot's normal form (fixed arrays of the declared length) -/
+def emittedValid (args : List String) (impl : String) : String :=
+  match args with
+  | [name, _, stxt] =>
+    match tableOf name, (impl.splitOn " ").head? with
+    | some T, some mtxt =>
+      -- structs outside the property's quantifier (a time the protocol cannot hold, UnknownFields the message type knows)
+      let inScope := match parseStruct T stxt with
+        | some st => wellTyped T st && unknownsOk T st && !hasTimeBeyond T st
+        | none => false
+      if !inScope then "n/a" else
+      match parseMessage mtxt with
+      | none => if impl == "bad-op" || impl == "panic" then "n/a" else "fail:unparsable"
+      | some m =>
+        let bad := m.fields.filter fun f =>
+          stored T f && T.slots.any fun sl => numIs sl.num f && specVal sl f.value != some f.value
+        if bad.isEmpty then "ok" else "fail:invalid-valued field emitted " ++ ";".intercalate (bad.map printField)
+    | _, _ => "n/a"
+  | _ => "n/a"
+
+def hSM : Handler := fun r =>
+  match r.mode with
+  | .model => structToMesg r.args
+  | .kf => "-"
+  | .spec => "n/a"
+  | .prop => emittedValid r.args r.impl
 def hID : Handler := fun r =>
   match r.mode with
   | .model => structId false r.args
